@@ -63,7 +63,8 @@ def counter_inv(eng, m, k):
 
 
 def system_value(eng, st, m, stats_vals):
-    stats = mk_struct(eng, "CounterStats", {n: v for n, v in zip(STATS, stats_vals)})
+    # statistics fields this check does not know (added by a later change) are arbitrary 64-bit values
+    stats = mk_struct(eng, "CounterStats", {n: v for n, v in zip(STATS, stats_vals)}, fill=lambda f: eng.fresh_bv("stats." + f, 64))
     counters_ref = eng.alloc(st, m)
     stats_ref = eng.alloc(st, stats)
     return mk_struct(eng, "MonotonicCounterSystem", {"counters": counters_ref, "storage_path": VOpaque("path"), "sync_interval": mk_time(bv(30, 64), bv(0, 32), "Duration"),
